@@ -74,7 +74,8 @@ def run_case(case, tier):
     eng_out = []
     import time
     t_start = time.time()
-    budget = TIMEOUT[tier] * 0.85   # per-case time box: goals that do not fit are skipped, the compared ones still count
+    lf = K.load_factor()
+    budget = TIMEOUT[tier] * 0.85   # nominal seconds (elapsed time is divided by the load factor); per-case time box: goals that do not fit are skipped, the compared ones still count
     try:
         with K.soft_timeout(budget * 0.4):
             table = K.oracle_moments(prog, params, inits, goals, N, max_states=20000 if tier == "quick" else 100000,
@@ -105,7 +106,7 @@ def run_case(case, tier):
     nontrivial = False
     sample_rows = []
     for g, ref in zip(goals, table):
-        left = budget - (time.time() - t_start)
+        left = budget - (time.time() - t_start) / lf
         if left < 1.5:
             res["events"]["goal-skipped-time-box"] = res["events"].get("goal-skipped-time-box", 0) + 1
             continue
@@ -136,9 +137,9 @@ def run_case(case, tier):
         if len(sample_rows) < 2:
             sample_rows.append({"goal": P.monom_str(g), "closed_form": str(cf)[:200], "is_exact": bool(is_exact),
                                 "ref_values": [P.val_str(x) for x in ref[:4]]})
-    if case.get("cli") and compared_goals and budget - (time.time() - t_start) > 0.45 * budget:
+    if case.get("cli") and compared_goals and budget - (time.time() - t_start) / lf > 0.45 * budget:
         try:
-            with K.soft_timeout(budget - (time.time() - t_start)):
+            with K.soft_timeout(budget - (time.time() - t_start) / lf):
                 cli_viol, ncmp = cli_compare(case, goals, table, values, N)
             res["events"]["polar.main"] = 1
             res["comparisons"] += ncmp
